@@ -28,6 +28,7 @@ pub struct Config {
     follow: Follow,
     new_paths: Option<Vec<String>>,
     files0_argument: Option<String>,
+    files0_invalid_names: bool,
 }
 
 impl Default for Config {
@@ -48,6 +49,7 @@ impl Default for Config {
             follow: Follow::Never,
             new_paths: None, // This option exclusively for -files0-from argument.
             files0_argument: None, //This option also is used for file0-from
+            files0_invalid_names: false,
         }
     }
 }
@@ -132,12 +134,14 @@ fn parse_args(args: &[&str]) -> Result<ParsedInfo, Box<dyn Error>> {
         paths.push(args[i].to_string());
         i += 1;
     }
-    if i == paths_start {
+    // No starting point given means ".".
+    let default_starting_point = i == paths_start;
+    if default_starting_point {
         paths.push(".".to_string());
     }
     let matcher = matchers::build_top_level_matcher(&args[i..], &mut config)?;
     if let Some(new_paths) = &config.new_paths {
-        if paths.len() == 1 && paths[0] == "." {
+        if default_starting_point {
             paths = new_paths.to_vec();
         } else {
             return Err(From::from(format!(
@@ -286,6 +290,10 @@ fn do_find(args: &[&str], deps: &dyn Dependencies) -> Result<i32, Box<dyn Error>
         if quit {
             break;
         }
+    }
+    // Names in -files0-from that could not be used were diagnosed when read.
+    if paths_and_matcher.config.files0_invalid_names && ret == 0 {
+        ret = 1;
     }
 
     Ok(ret)
